@@ -183,6 +183,13 @@ Definition parse_range (k : rkind) (s : string) : option rng :=
            end in
   match r with Some x => if kind_valid k x then Some x else None | None => None end.
 
+(* ---- config.Load's checks on interval names (config.go Config.UnmarshalYAML, checkTimeInterval) ----
+   defined: names of mute_time_intervals followed by those of time_intervals; each must be non-empty and unique
+   across both lists; the root route may not use any; every name used by any route must be defined. *)
+Definition cfg_names_ok (defined root_used : list string) (routes_used : list (list string)) : bool :=
+  forallb (fun n => negb (String.eqb n "")) defined && bool_decide (NoDup defined) && beq root_used [] &&
+  forallb (forallb (fun n => bool_decide (n ∈ defined))) routes_used.
+
 (* ---- Intervener.Mutes ---- *)
 Definition intervals := list (string * list tinterval).   (* map name -> intervals (keys unique) *)
 Fixpoint lookup_iv (n : string) (m : intervals) : option (list tinterval) :=
@@ -257,6 +264,17 @@ Definition time_stages (tz : string -> Z -> Z) (m : intervals) (x : sctx) (marke
   let b := time_mute_stage tz m x in
   let mk2 := apply_set mk1 (s_set b) in
   match s_err b with Some e => (false, Some e, mk2) | None => (s_pass b, None, mk2) end end.
+
+(* the successive flushes of one aggregation group at the tick instants `nows`: each runs both stages with the
+   route's two name lists; the marker left by one flush is what the next one finds *)
+Fixpoint flush_seq (tz : string -> Z -> Z) (m : intervals) (route gkey : string) (mute active : list string)
+  (marker : option (list string)) (nows : list Z) : list (bool * option string * option (list string)) :=
+  match nows with
+  | [] => []
+  | now :: r =>
+      let out := time_stages tz m (mkCtx (Some route) (Some gkey) (Some mute) (Some active) (Some now)) marker in
+      out :: flush_seq tz m route gkey mute active (snd out) r
+  end.
 
 (* GroupMarker.Muted: (names, len(names) > 0) *)
 Definition marker_muted (marker : option (list string)) : list string * bool :=
